@@ -399,7 +399,8 @@ func secFlattenBase(r *vlib.Run) {
 		}
 		angle := []float64{0, 0.3, math.Pi / 4, 1.0, 1.4}[rng.Intn(5)]
 		extra := map[string]interface{}{"max_angle": angle, "z0": vlib.Hex(z0)}
-		out := vlib.Tris(in.mesh.FlattenBase(angle))
+		flat := in.mesh.FlattenBase(angle)
+		out := vlib.Tris(flat)
 		c.Count("calls."+api, 1)
 		inputUntouched(c, api, in, extra)
 		if len(out) != len(in.tris) {
@@ -433,7 +434,22 @@ func secFlattenBase(r *vlib.Run) {
 			c.Count("flatten.cases_with_movement", 1)
 			c.Nontrivial(fmt.Sprintf("flatten|%s|%g", in.desc, angle))
 		}
-		checkTopo(c, api, in, out, topoOpts{moved: true, expectV: in.topo.Vertices}, extra)
+		if _, ok := checkTopo(c, api, in, out, topoOpts{moved: true, expectV: in.topo.Vertices}, extra); ok {
+			// the returned mesh object itself goes on into the next operation (chains of operations):
+			// whatever lazy state FlattenBase left in it must describe its faces
+			if fi, good := certify(flat, in.desc+" -> FlattenBase", false); good && fi.topo.Faces*4 <= 8000 {
+				follow, label := (*model3d.Mesh)(nil), ""
+				res, gok := guarded(c, "model3d.LoopSubdivision", func() map[string]interface{} {
+					return in.witness(map[string]interface{}{"chain": "FlattenBase -> LoopSubdivision(1) on the returned mesh object"})
+				}, func() interface{} { return model3d.LoopSubdivision(flat, 1) })
+				if gok {
+					follow, label = res.(*model3d.Mesh), "LoopSubdivision(1)"
+					c.Count("flatten.followed_by_subdivision", 1)
+					checkTopo(c, "model3d.LoopSubdivision", fi, vlib.Tris(follow), topoOpts{moved: true, expectV: fi.topo.Vertices + fi.topo.Edges},
+						map[string]interface{}{"chain": "FlattenBase -> " + label})
+				}
+			}
+		}
 		// which faces qualify: exactly two vertices on the base and a normal
 		// within maxAngle of straight down (default 45 degrees)
 		ang := angle
